@@ -138,17 +138,17 @@ def array(x, dtype=None):
     from .core import SymList
     if isinstance(x, SymList):
         with SpecMode():
-            probe = x.item(SInt(z3.Int('probe')))
+            probe = x.at(SInt(z3.Int('probe')))
         if isinstance(probe, SArr):
             inner = probe.shape_e
             k = probe.kind
             def elem(j, *ix):
                 with SpecMode():
-                    return x.item(SInt(j)).elem(*ix)
+                    return x.at(SInt(j)).elem(*ix)
             return SArr((x.n,) + tuple(inner), elem, k)
         def elem1(j):
             with SpecMode():
-                return lift(x.item(SInt(j)))
+                return lift(x.at(SInt(j)))
         pe = lift(probe)
         return SArr((x.n,), elem1, kind_of_sort(pe.sort()))
     if isinstance(x, SArr):
@@ -374,6 +374,19 @@ def where(b, *rest):
     if pw is not None:
         return (pw,)
     cache = c.ghost.setdefault('where_cache', {})
+    if key not in cache:
+        # the textual key is not canonical (argument order of and/or): fall back to a semantic comparison of the mask terms
+        e_new = b.elem(ci)
+        for k2, (e_old, n_old, val) in c.ghost.setdefault('where_terms', {}).items():
+            if _eq(n_old, n):
+                sl = z3.Solver()
+                sl.set('timeout', 300)
+                sl.add(e_old != e_new)
+                if sl.check() == z3.unsat:
+                    cache[key] = val
+                    break
+    if key not in cache and Ctx.closure_depth:
+        raise Unsupported('np.where on a new mask inside a symbolic comprehension (its result must be a function of the index)')
     if key in cache:
         K, W, P = cache[key]
         r = SArr((K,), lambda jx: W(jx), 'i', incr=True)
@@ -392,6 +405,7 @@ def where(b, *rest):
     P = c.fresh_fun('Wpos', I, I)
     c.assume(z3.ForAll([i], z3.Implies(z3.And(0 <= i, i < n, b.elem(i)), z3.And(0 <= P(i), P(i) < K, W(P(i)) == i)), patterns=[P(i)]))
     cache[key] = (K, W, P)
+    c.ghost.setdefault('where_terms', {})[key] = (b.elem(ci), n, (K, W, P))
     r = SArr((K,), lambda jx: W(jx), 'i', incr=True)
     r.member = lambda v: z3.And(0 <= v, v < n, b.elem(v))
     r.where_of = b
@@ -1008,11 +1022,53 @@ def digitize(x, edges):
 
 
 def unique(a, return_counts=False):
-    raise Unsupported('np.unique')
+    """only the shapes are modelled (values unconstrained): enough where the result is not used"""
+    c = C()
+    n = c.fresh('nuniq', I)
+    c.assume(z3.And(0 <= n, n <= a.shape_e[0]))
+    u = SArr((n,), (lambda f: lambda i: f(i))(c.fresh_fun('uniq', I, SORT[a.kind])), a.kind)
+    if return_counts:
+        return u, SArr((n,), (lambda f: lambda i: f(i))(c.fresh_fun('ucnt', I, I)), 'i')
+    return u
+
+
+def sort(a, axis=-1):
+    """ASSUMED np.sort of a 1-d array: a non-decreasing permutation of the input (PERM is a bijection of [0,n))"""
+    a = _arr(a)
+    if a.ndim != 1:
+        raise Unsupported('sort of n-d array')
+    if Ctx.closure_depth:
+        raise Unsupported('np.sort inside a symbolic comprehension')
+    c = C()
+    n = a.shape_e[0]
+    S = c.fresh_fun('sorted', I, SORT[a.kind])
+    PERM = c.fresh_fun('perm', I, I)
+    INV = c.fresh_fun('perminv', I, I)
+    i, j = _qv(2)
+    old = a.elem
+    c.assume(z3.ForAll([i, j], z3.Implies(z3.And(0 <= i, i <= j, j < n), S(i) <= S(j)), patterns=[z3.MultiPattern(S(i), S(j))]))
+    c.assume(z3.ForAll([i], z3.Implies(z3.And(0 <= i, i < n), z3.And(0 <= PERM(i), PERM(i) < n, S(i) == old(PERM(i)), INV(PERM(i)) == i)), patterns=[PERM(i)]))
+    c.assume(z3.ForAll([i], z3.Implies(z3.And(0 <= i, i < n), z3.And(0 <= INV(i), INV(i) < n, PERM(INV(i)) == i)), patterns=[INV(i)]))
+    r = SArr((n,), lambda q: S(q), a.kind)
+    r.sorted_from = (old, PERM, INV)
+    return r
 
 
 def argmax(a, axis=None):
-    raise Unsupported('np.argmax')
+    """ASSUMED np.argmax(a, axis=1): per row the first index holding the row maximum"""
+    a = _arr(a)
+    if a.ndim != 2 or axis != 1:
+        raise Unsupported('argmax pattern')
+    c = C()
+    if not Ctx.spec:
+        c.oblige('argmax-of-nonempty', a.shape_e[1] > 0, 'safety')
+    Wf = c.fresh_fun('argmax', I, I)
+    i, j = _qv(2)
+    c.assume(z3.ForAll([i], z3.Implies(z3.And(0 <= i, i < a.shape_e[0]), z3.And(0 <= Wf(i), Wf(i) < a.shape_e[1])), patterns=[Wf(i)]))
+    c.assume(z3.ForAll([i, j], z3.Implies(z3.And(0 <= i, i < a.shape_e[0], 0 <= j, j < a.shape_e[1]),
+                                          z3.And(a.elem(i, j) <= a.elem(i, Wf(i)), z3.Implies(j < Wf(i), a.elem(i, j) < a.elem(i, Wf(i))))),
+                       patterns=[z3.MultiPattern(Wf(i), a.elem(i, j))] if _pat_ok(a.elem(i, j), [i, j]) else []))
+    return SArr((a.shape_e[0],), lambda q: Wf(q), 'i')
 
 
 def argmin(a, axis=None):
